@@ -44,13 +44,13 @@ type Op struct {
 	A    int    `json:"a,omitempty"`    // account 0..3
 	D    int    `json:"d,omitempty"`    // sub: nonce = state nonce + d, d in [-2,5]; ext: nonce = first unheld nonce + d, d in [0,1]
 	V    int    `json:"v,omitempty"`    // variant: same account+nonce, different gas limit => different tx hash
-	R    int    `json:"r,omitempty"`    // sub: r further variants v+1..v+r of the same account+nonce follow (repeats)
+	R    int    `json:"r,omitempty"`    // sub: r further variants v+1..v+r of the same account+nonce follow (repeats); ext: r further consecutive nonces follow, in order
 	I    int    `json:"i,omitempty"`    // dup: index (mod count) of an earlier submission sent again byte-identically; adm: payload id
 	N    int    `json:"n,omitempty"`    // reap: limit
 	Take []int  `json:"take,omitempty"` // commit: per account how many of its offered txs (nonce order) go in the block
 	Adm  int    `json:"adm,omitempty"`  // commit: how many of the offered admin txs go in the block
 	Hole int    `json:"hole,omitempty"` // commit: 0 none; else one tx (index hole-1 mod (take-1)) of account HoleA is left out of its run
-	HA   int    `json:"ha,omitempty"`   // commit: account the hole applies to
+	HA   int    `json:"ha,omitempty"`   // commit: the hole applies to the first account from HA on (cyclically) with >= 2 selected txs
 }
 
 type PoolCase struct {
@@ -80,6 +80,7 @@ func genOp(variants bool) *rapid.Generator[Op] {
 			if o.D == 1 && rapid.IntRange(0, 1).Draw(t, "d0") == 0 {
 				o.D = 0
 			}
+			o.R = rapid.SampledFrom([]int{0, 0, 1, 2, 4}).Draw(t, "run")
 		case w < 57:
 			o.K = "dup"
 			o.I = rapid.IntRange(0, 63).Draw(t, "i")
@@ -117,7 +118,9 @@ func genPool(t *rapid.T) PoolCase {
 	var c PoolCase
 	c.BlockSize = rapid.SampledFrom([]int{1, 1, 3}).Draw(t, "blockSize")
 	variants := rapid.IntRange(0, 2).Draw(t, "variants") > 0
-	c.Ops = rapid.SliceOfN(genOp(variants), 3, 60).Draw(t, "ops")
+	// rapid's own slice lengths are strongly biased to short slices: draw the length explicitly
+	n := rapid.IntRange(3, 60).Draw(t, "nops")
+	c.Ops = rapid.SliceOfN(genOp(variants), n, n).Draw(t, "ops")
 	return c
 }
 
@@ -847,6 +850,7 @@ func (r *runner) opCommit(o Op) {
 	}
 	var sel [nAcc][]*rec
 	offered, chosen := len(adm), 0
+	var take [nAcc]int
 	for a := 0; a < nAcc; a++ {
 		offered += len(eth[a])
 		k := 0
@@ -859,8 +863,22 @@ func (r *runner) opCommit(o Op) {
 		if k < 0 {
 			k = 0
 		}
+		take[a] = k
+	}
+	holeAcc := -1
+	if o.Hole > 0 {
+		for j := 0; j < nAcc; j++ { // first account from HA on with at least two selected txs
+			a := (o.HA%nAcc + nAcc + j) % nAcc
+			if take[a] >= 2 {
+				holeAcc = a
+				break
+			}
+		}
+	}
+	for a := 0; a < nAcc; a++ {
+		k := take[a]
 		sel[a] = append(sel[a], eth[a][:k]...)
-		if o.Hole > 0 && o.HA == a && k >= 2 {
+		if a == holeAcc {
 			at := (o.Hole - 1) % (k - 1)
 			sel[a] = append(sel[a][:at:at], sel[a][at+1:]...)
 			r.label("commit:with-hole(tx-invalid-in-block)")
@@ -972,8 +990,10 @@ func (r *runner) run(c PoolCase) {
 			}
 		case "ext":
 			n := r.m.firstUnheld(o.A) + uint64(o.D)
-			r.opDesc = fmt.Sprintf("ext acct%d nonce%d", o.A, n)
-			r.submitEth(r.ethRec(o.A, n, 0))
+			for k := 0; k <= o.R && !r.stop; k++ {
+				r.opDesc = fmt.Sprintf("ext acct%d nonce%d", o.A, n+uint64(k))
+				r.submitEth(r.ethRec(o.A, n+uint64(k), 0))
+			}
 		case "dup":
 			if len(r.order) == 0 {
 				r.label("dup:nothing-to-repeat")
@@ -1035,6 +1055,7 @@ func runPool(c PoolCase, x *h.Ctx) {
 	}()
 	r.run(c)
 	x.Labelf("block_size:%d", bs)
+	x.Labelf("ops:%d-%d", len(c.Ops)/20*20, len(c.Ops)/20*20+19)
 	for l := range r.labels {
 		x.Label(l)
 	}
